@@ -58,6 +58,9 @@ type shared struct {
 	decBM      [][]uint64
 	decFull    [][]uint64
 	vals       []uint64
+	// byte-slice arguments are views of larger shared arrays whose full contents are in every snapshot
+	plainFull [][]byte
+	wordsFull []byte // n-bit words (values < 2) for bitword.ToStr: prefixes of every length are passed
 	// seeded argument lists: a different argument class per case
 	sliceArgs [][2]int32
 	scanArgs  [][2]int32
@@ -91,7 +94,9 @@ func mkShared(r *rand.Rand) *shared {
 		if r.Intn(2) == 0 {
 			a = append(a, bsString(r, r.Intn(4))...)
 		}
-		s.plainA = append(s.plainA, a)
+		full := append(append([]byte{}, a...), 0xff, 0x81, 0x7e) // the view's neighbours are non-zero
+		s.plainFull = append(s.plainFull, full)
+		s.plainA = append(s.plainA, full[:len(a)])
 		s.strA = append(s.strA, string(append([]byte{}, a...))) // heap strings
 	}
 	for _, h := range []int{3, 5, 8, 9, 12} {
@@ -125,6 +130,10 @@ func mkShared(r *rand.Rand) *shared {
 	}
 	for i := 0; i < 40; i++ {
 		s.vals = append(s.vals, r.Uint64())
+	}
+	s.wordsFull = make([]byte, 40)
+	for i := range s.wordsFull {
+		s.wordsFull[i] = 1 // valid for every width, and non-zero behind every prefix
 	}
 	n := int32(len(s.bm) * 64)
 	al := func() int32 { return int32(r.Intn(len(s.bm)+1)) * 64 }
@@ -179,7 +188,7 @@ func (s *shared) snapshot() J {
 	return J{
 		"bm": digest(s.bm), "bmFull": digest(s.bmFull), "bm2": digest(s.bm2), "r64": digest(s.r64), "r128": digest(s.r128),
 		"sidx": digest(s.sidx), "sidx2": digest(s.sidx2), "ridx": digest(s.ridx),
-		"keys": digest(s.keys), "plainA": digest(s.plainA), "strA": digest(s.strA), "enc": digest(s.enc),
+		"keys": digest(s.keys), "plainA": digest(s.plainA), "plainFull": digest(s.plainFull), "wordsFull": digest(s.wordsFull), "strA": digest(s.strA), "enc": digest(s.enc),
 		"paths": digest(s.paths), "masks": digest(s.masks), "decBM": digest(s.decBM), "decFull": digest(s.decFull), "vals": digest(s.vals),
 		"tabMask": digest(bitmap.Mask[:]), "tabRMask": digest(bitmap.RMask[:]), "tabMaskUpto": digest(bitmap.MaskUpto[:]),
 		"tabRMaskUpto": digest(bitmap.RMaskUpto[:]), "tabBit": digest(bitmap.Bit[:]), "tabRBit": digest(bitmap.RBit[:]),
@@ -376,6 +385,15 @@ func (s *shared) calls() []call {
 			}
 			return r
 		}},
+		{"ToStrPrefixes", func() interface{} { // ToStr on prefixes of one shared word slice: partial last bytes, spare capacity
+			var r []string
+			for _, w := range []int{1, 2, 4, 8} {
+				for _, l := range []int{0, 1, 3, 5, 7, 8, 9, 13, 31} {
+					r = append(r, bitword.BitWord[w].ToStr(s.wordsFull[:l]))
+				}
+			}
+			return r
+		}},
 		{"FirstDiffBits", func() interface{} { return sigbits.FirstDiffBits(s.keys) }},
 		{"ShardByPrefix", func() interface{} {
 			a, b := sigbits.ShardByPrefix(s.keys, 3)
@@ -495,7 +513,7 @@ func execConc(in In, em *Emitter) {
 	G, rounds := in.Int("g"), in.Int("rounds")
 	s := mkShared(r)
 	inputRanges = nil
-	for _, x := range []interface{}{s.bm, s.bmFull, s.bm2, s.r64, s.r128, s.sidx, s.sidx2, s.ridx, s.plainA, s.enc, s.paths, s.masks, s.decBM, s.decFull, s.vals} {
+	for _, x := range []interface{}{s.bm, s.bmFull, s.bm2, s.r64, s.r128, s.sidx, s.sidx2, s.ridx, s.plainA, s.plainFull, s.wordsFull, s.enc, s.paths, s.masks, s.decBM, s.decFull, s.vals} {
 		addInputRange(reflect.ValueOf(x))
 	}
 	raceReports() // drop anything older
